@@ -81,7 +81,20 @@ def gen_inject_case(rng, tier):
             'head_start': True}
 
 
-def child(p, ops, gpath, logf, seed, inject=0.0, wait_for=None, ctx=0.0, head=False):
+# key names on disk: one is a proper prefix of the others (the per-key files of different
+# keys must stay apart whatever the names look like)
+KEYS = ['k1', 'k10', 'k', 'k1x']
+# known finding D14: a key named like the dbm.dumb file of another key
+COLLIDING = ['k1', 'k1.dat', 'k1.dir']
+
+
+def kname(k, names=None):
+    names = names or KEYS
+    return names[k % len(names)]
+
+
+def child(p, ops, gpath, logf, seed, inject=0.0, wait_for=None, ctx=0.0, head=False,
+          names=None):
     import random
     core.import_searchkit()
     import fasteners
@@ -166,12 +179,12 @@ def child(p, ops, gpath, logf, seed, inject=0.0, wait_for=None, ctx=0.0, head=Fa
         try:
             def do(c):
                 if op[0] == 'set':
-                    return c.set(f'k{op[1]}', op[2])
+                    return c.set(kname(op[1], names), op[2])
                 if op[0] == 'bulk':
-                    return c.bulk_set({f'k{k}': v for k, v in op[1]})
+                    return c.bulk_set({kname(k, names): v for k, v in op[1]})
                 if op[0] == 'get':
-                    return c.get(f'k{op[1]}')
-                return c.unset(f'k{op[1]}')
+                    return c.get(kname(op[1], names))
+                return c.unset(kname(op[1], names))
             if ctx and rng.random() < ctx:
                 # the documented context-manager form: a cache object per operation
                 with mk_cache() as c:
@@ -202,7 +215,7 @@ def run_impl(case):
     procs = [ctx.Process(target=child, args=(p, ops, os.path.join(tmp, 'g'), logf,
                                              case['pauses'], case.get('inject', 0.0),
                                              go if p else None, case.get('ctx', 0.0),
-                                             bool(case.get('head_start'))))
+                                             bool(case.get('head_start')), case.get('names')))
              for p, ops in enumerate(case['progs'])]
     try:
         for pr in procs:
@@ -238,7 +251,8 @@ def run_separate(case, tmp, logf, go):
     try:
         for p, ops in enumerate(case['progs']):
             args = [p, ops, os.path.join(tmp, 'g'), logf, case['pauses'], case.get('inject', 0.0),
-                    go if p else None, case.get('ctx', 0.0), bool(case.get('head_start'))]
+                    go if p else None, case.get('ctx', 0.0), bool(case.get('head_start')),
+                    case.get('names')]
             env = dict(os.environ, PYTHONPATH=here, PYTHONHASHSEED=str(1000 + p),
                        PYTHONDONTWRITEBYTECODE='1')
             procs.append(subprocess.Popen([sys.executable, '-m', 'vh.props.c19', json.dumps(args)],
@@ -300,6 +314,8 @@ def model_case(item):
     for _t, p, kind, *rest in item['impl']['events']:
         if kind == 'acq':
             evs.append(['acq', p])
+        elif kind == 'injected':
+            evs.append(['retry', p])        # a failed open inside get(): sleep, try again
         elif kind == 'rel':
             pending[p] = len(evs)
             evs.append(['rel', p, None])
@@ -481,15 +497,20 @@ def run(tier, seed, replay_case=None):
         nsep = 4 if tier == 'quick' else 60
         items += core.run_sharded(eval_cases, seed + 2, nsep, {'tier': tier, 'separate': True},
                                   shards=min(4, nsep), workers=4)
+        # known finding D14: keys named like another key's dbm file (one history per run)
+        items += eval_cases(None, 0, {'fixed': [{
+            'progs': [[['set', 0, 'v0'], ['get', 1], ['get', 0], ['set', 2, 'v1'], ['get', 0]]],
+            'pauses': 1, 'ctx': 0.0, 'names': COLLIDING}]})
     drv = core.Driver()
     mobs = drv.run([model_case(it) for it in items])
     for it, mo in zip(items, mobs):
         judge(rep, it, mo)
-    if replay_case is None and rep.failures and \
-            not any(f['kind'] == 'failing-input' for f in rep.failures):
+    others = [f for f in rep.failures if f['case'].get('names') != COLLIDING]
+    if replay_case is None and others and \
+            not any(f['kind'] == 'failing-input' for f in others):
         # correspondence broke but no history contradicts the property yet: search for one
         import random
-        like = rep.failures[0]['case']
+        like = others[0]['case']
         hrng = random.Random(seed + 77)
         hitems = eval_cases(None, 0, {'fixed': [gen_hammer_case(hrng, like) for _ in range(8)]})
         rep.count('hammer_histories', len(hitems))
@@ -498,7 +519,9 @@ def run(tier, seed, replay_case=None):
     rep.assumptions = ["fasteners.InterProcessLock (fcntl) provides mutual exclusion between "
                        "processes", "shelve/dbm writes of one record are durable and visible to "
                        "the next opener", "CLOCK_MONOTONIC is consistent across processes"]
-    return rep.finish(aud, RULE)
+    return rep.finish(aud, RULE, signature_fn=lambda f: 'key-named-like-a-dbm-file'
+                      if isinstance(f.get('case'), dict) and f['case'].get('names') == COLLIDING
+                      else None)
 
 
 if __name__ == '__main__':
